@@ -194,9 +194,13 @@ def gen_cases(tier, seed):
     for i, f in enumerate(cat):
         whole = all(n >= 1 for _, n in f["raws"]) and f["kind"] != "garbage"
         cases.append({"mode": "single", "fault": f, "tc": i % 9 == 8 and whole, "loud": i % 11 == 10, "offender_first": i % 4 == 1})
-        if f["stage"] == "accepted" and (tier == "thorough" or i % 3 == 0 or (whole and f["close"])):
+        dup = f["stage"] == "accepted" and (tier == "thorough" or i % 3 == 0 or (whole and f["close"]) or f["kind"] == "connect_v2_name")
+        if tier == "quick" and f["kind"] == "length":
+            dup = True      # (the quick tier draws one stage per fault: these are repeated for the pre-handshake stage)
+        if dup:
             # the same fault from a peer that already receives everything, the manager publishing its own log messages
-            cases.append({"mode": "single", "fault": dict(f, stage="presub_all"), "tc": False, "loud": True, "offender_first": i % 2 == 0 or f["kind"] == "hello_then_close"})
+            cases.append({"mode": "single", "fault": dict(f, stage="presub_all"), "tc": False, "loud": True,
+                          "offender_first": i % 2 == 0 or f["kind"] in ("hello_then_close", "length")})
     # (vi) pairs x permutations
     pairs = [(a, b) for a in SIMPLE for b in SIMPLE]
     rng.shuffle(pairs)
